@@ -40,6 +40,11 @@ def mask_call(fn_name: str, argterm: Term) -> Term:
     return ('call', ('attr', SELF, fn_name), (argterm,), ())
 
 
+def _num(t):
+    return t[1] if t[0] == 'const' and isinstance(t[1], (int, float)) and \
+        not isinstance(t[1], bool) else None
+
+
 def _subst(t, a, b):
     if t == a:
         return b
@@ -185,10 +190,19 @@ def r04b(ctx):
             for p in returning(paths(repo, reg.fn)):
                 t = p.retval
                 ifs = [x for x in subterms(t) if x[0] == 'ifexp']
+                ind = [x for x in subterms(t)
+                       if is_call(x, 'builtins.int', 'builtins.float') and len(x[2]) == 1 and
+                       x[2][0] in (('cmp', 'is not', want_atom[1], NONE),
+                                   ('un', 'not', ('cmp', 'is', want_atom[1], NONE)))]
                 n += 1
-                ok = len(ifs) == 1 and ifs[0][2] == ('const', 1) and ifs[0][3] == ('const', 0) and \
-                    ifs[0][1] in (('un', 'not', ('cmp', 'is', want_atom[1], NONE)),
-                                  ('cmp', 'is not', want_atom[1], NONE))
+                present = (('un', 'not', ('cmp', 'is', want_atom[1], NONE)),
+                           ('cmp', 'is not', want_atom[1], NONE))
+                absent = (('cmp', 'is', want_atom[1], NONE),
+                          ('un', 'not', ('cmp', 'is not', want_atom[1], NONE)))
+                ok = (len(ifs) == 1 and not ind and (
+                    (ifs[0][1] in present and _num(ifs[0][2]) == 1 and _num(ifs[0][3]) == 0) or
+                    (ifs[0][1] in absent and _num(ifs[0][2]) == 0 and _num(ifs[0][3]) == 1))) or \
+                    (len(ind) == 1 and not ifs)
                 ctx.ob('R04b', f'{sname}[{reg.pattern}] bias term', ok,
                        "bias counted iff spec['_parameters']['bias'] is not None" if ok else
                        f'{reg.fn.name} returns {short(t, 200)}: the bias must be counted exactly '
